@@ -406,3 +406,51 @@ func ruleOneEarlySuccess(c *Ctx, rule string) {
 	})
 	c.R.Floor(rule, "success exits of the evaluator", n, 1)
 }
+
+func init() {
+	for _, pid := range []string{"C03", "C06", "C17"} {
+		pid := pid
+		Properties[pid].Rules = append(Properties[pid].Rules, Rule{pid + "/relative-id-refused", func(c *Ctx) { ruleRelativeIDRefused(c, pid+"/relative-id-refused") }})
+	}
+}
+
+// A $id that does not resolve to an absolute URI makes Resolve fail: the outcome "not absolute" of the test leads
+// to an error return. (Passing such a schema over leaves it, and the anchors below it, in the enclosing resource:
+// two embedded resources then share one anchor table and one of them answers for the other.)
+func ruleRelativeIDRefused(c *Ctx, rule string) {
+	n := 0
+	for _, fn := range c.Closure(rule, "RES").Minus(c.Closure(rule, "EV")).Sorted() {
+		if !c.P.InPkg(fn) {
+			continue
+		}
+		for _, b := range fn.Blocks {
+			ifi, ok := b.Instrs[len(b.Instrs)-1].(*ssa.If)
+			if !ok {
+				continue
+			}
+			cond, pol := ssa.Value(ifi.Cond), true
+			for {
+				if u, ok := cond.(*ssa.UnOp); ok && u.Op == token.NOT {
+					cond, pol = u.X, !pol
+					continue
+				}
+				break
+			}
+			call, ok := cond.(*ssa.Call)
+			if !ok || core.CalleeKey(&call.Call) != "net/url.URL.IsAbs" {
+				continue
+			}
+			if !c.mentionsField(call.Call.Args[0], "resolvedInfo.uri", 6) {
+				continue
+			}
+			n++
+			// successor taken when IsAbs() is false
+			notAbs := b.Succs[1]
+			if !pol {
+				notAbs = b.Succs[0]
+			}
+			c.R.Check(blockReturnsErrorDeepLocal(notAbs), rule, fmt.Sprintf("%s:not-absolute#%d", core.FuncName(fn), n), c.pos(ifi), "a $id that does not resolve to an absolute URI is an error", "a $id that does not resolve to an absolute URI is passed over instead of refused: the schema does not become a resource of its own, its anchors go into the enclosing resource's table, and a $ref or $dynamicRef in a sibling resource with the same anchor name reaches the wrong subschema")
+		}
+	}
+	c.R.Floor(rule, "tests that a resolved $id is absolute", n, 1)
+}
